@@ -170,6 +170,33 @@ def run(ctx):
         if common.reads_field(sf, s["rv"], "env::Env.runid"):
             okw = True
     ctx.ob("R5.3", "set_failed|writes-failed_runid:=env.runid", okw, where=sf.span, detail="failed_runid := env.runid" if okw else "set_failed does not record the current run id")
+    # ---- R5.16 (seed C05-7): the run recorded is always *this* run
+    ctx.rule("R5.16", "set_failed records the current run id unconditionally and unmixed: every path to its Ok return assigns failed_runid, and the assigned value is env.runid itself (not a value chosen between it and what the record held): File::is_failed (failed_runid >= current run) is what stops a second execution in the same run")
+    sba_ = BA.of(sf)
+    wb = sorted({bb for (bb, j, s) in w})
+    oks = common.returned_ok_blocks(sf) or sba_.returns()
+    pth = sba_.path([0], oks, avoid=frozenset(wb), incl=True) if wb else [0]
+    ctx.ob("R5.16", "set_failed|failed_runid-assigned-on-every-path", bool(wb) and pth is None, where=sf.span,
+           detail="every Ok return of set_failed lies behind the assignment" if wb and pth is None else "set_failed can return Ok without recording the run", witness=pth)
+
+    def _pure_runid(rv, depth=0):
+        pls = rvalue_places(rv)
+        if rv["k"] not in ("use", "cast") or not pls:
+            return False
+        for p_ in pls:
+            if "env::Env.runid" in place_fields(p_):
+                continue
+            if p_["p"] or depth > 5:
+                return False
+            dfs = sba_.defs.get(p_["l"], [])
+            if not dfs or not all(d[0] == "stmt" and _pure_runid(d[3], depth + 1) for d in dfs):
+                return False
+        return True
+    for n, (bb, j, s_) in enumerate(w):
+        ok = _pure_runid(s_["rv"])
+        ctx.ob("R5.16", "set_failed|write#%d|value-is-env.runid-itself" % n, ok, where=ctx.where(sf, bb),
+               detail="failed_runid := env.runid" if ok else
+               "the recorded run is computed from something else than env.runid (e.g. an earlier failure is kept): a target that fails in two runs in a row is no longer `already failed in this run` and is executed once per requester")
     failed_first(ctx, "R5.3")
 
     # ---- R5.4
